@@ -168,6 +168,19 @@ func invalidTexts(rng *gen.RNG, emit func(text, class string)) {
 		p := rng.Intn(len(valid) + 1)
 		emit(valid[:p]+o+valid[p:], "character-outside-alphabet")
 	}
+	// every single byte value outside A-Z a-z 2-7 = at an interior position (and at both ends when it is not white space)
+	for b := 0; b < 256; b++ {
+		c := byte(b)
+		if c >= 'A' && c <= 'Z' || c >= 'a' && c <= 'z' || c >= '2' && c <= '7' || c == '=' {
+			continue
+		}
+		p := 1 + rng.Intn(len(valid)-2)
+		emit(valid[:p]+string([]byte{c})+valid[p+1:], "character-outside-alphabet")
+		if !(c == ' ' || c == '\t' || c == '\n' || c == '\r' || c == '\v' || c == '\f' || c == 0x85 || c == 0xA0) {
+			emit(string([]byte{c})+valid[1:], "character-outside-alphabet")
+			emit(valid[:len(valid)-1]+string([]byte{c}), "character-outside-alphabet")
+		}
+	}
 	// impossible lengths: 1, 3, 6 mod 8 data characters
 	for _, m := range []int{1, 3, 6} {
 		for _, blocks := range []int{0, 1, 3} {
